@@ -12,6 +12,7 @@ import random
 import vlib
 from props import client_gen as G
 from props import client_lib as CL
+from props import client_overlap as O
 
 MODEL = "clientrun"
 MODULE = "Model.ClientRun"
@@ -171,6 +172,7 @@ def run(ck):
     run_batch("hostile-environment histories vs Model.ClientRun.run_ops",
               [G.gen_history(rnd, "chaos") for _ in range(350 * scale)])
     hosts_batch(ck, rnd, 400 * scale)
+    O.batch(ck, rnd, 250 * scale, PID)       # overlapping calls, arbitrary interleavings: monitors only (see client_overlap.py)
     if ck.tier == "thorough":
         run_batch("exhaustive small scope (payload orders x failing subsets; connected subsets x answer patterns x bootstrap outcomes) vs Model.ClientRun.run_ops",
                   list(enum_small()))
@@ -194,6 +196,7 @@ def run(ck):
         "the client is built with enable_protocol_version_discovery=False (no ApiVersions lookup before produce/fetch) and the default disconnect_on_timeout; the network side (request parser / response encoder) was written from the Kafka protocol guide, not from afkak's codec",
         "_normalize_hosts: host names are compared as code-point lists (CPython str ordering), str.strip() for ASCII white space; non-numeric ports (ValueError) are outside the model",
         "close() called while a lookup of the running operation is pending: client.py:383-389 fail the pending request synchronously, the operation's continuation runs inside close() and reads the cache BEFORE reset_all_metadata() (391); the model does the same (ClientMeta.close_early during the operation, close_finish after it)",
+        "overlapping operations and arbitrary interleavings (client_overlap.py: 2-4 calls issued before anything is answered, one pending event delivered at a time - accept/refuse a connect, answer one request from the cluster state at that moment, kill a connection with requests in flight (re-send), fire a timer - while leaders move and brokers die/restart) are OUTSIDE the Gallina model: monitors only (completion, no KeyError/unknown exception, no cross-talk, per-call order and accounting, routing against the metadata answers merged since the call was issued, cache = last merged answer at the end, closing)",
         "extraction: ExtrOcamlBasic only; Z stays a Coq datatype; sample of the case lines re-evaluated in Coq by vm_compute",
     ]
     ck.cov["trusted_base"] += ["correspondence harness harness/props/C07.py + client_gen.py + client_lib.py + harness/simnet.py + harness/vlib.py",
@@ -214,4 +217,6 @@ def replay(rp):
         except Exception as e:
             print("model comparison skipped:", repr(e)[:200])
             return 1
+    if rp.get("replay_op") == "overlap":
+        return O.replay(rp)
     return G.replay_history(rp, PID)
